@@ -133,10 +133,11 @@ Definition fetch_value : M unit :=
   s <- get ;;
   sk <- (match sc_sks s with [] => panic 117 | k :: _ => ret k end) ;;
   let start := sc_mark s in
-  let is_ifm := (match sc_ifms s with ImPossible :: _ | ImInside :: _ => true | _ => false end) in
-  (if is_ifm then modify (fun s => set_ifms (ImInside :: tl (sc_ifms s)) s) else ret tt) ;;;
+  let starts_ifm := (match sc_ifms s with ImPossible :: _ => true | _ => false end) in
+  let is_ifm := starts_ifm || (match sc_ifms s with ImInside :: _ => true | _ => false end) in
+  (if starts_ifm then modify (fun s => set_ifms (ImInside :: tl (sc_ifms s)) s) else ret tt) ;;;
   skip_non_blank ops ;;;
-  c <- look_ch ops ;;
+  c <- (if sc_flow_level s =? 0 then look_ch ops else ret 0) ;;
   (if c =? 9 then
      tw <- skip_ws_to_eol ops F SkipYes ;;
      if negb (snd tw) then
@@ -150,7 +151,8 @@ Definition fetch_value : M unit :=
     insert_token (sk_token_number sk - sc_tokens_parsed s) (span_empty (sk_mark sk), TKey) ;;;
     (if is_ifm then
        if m_line (sk_mark sk) <? m_line start then fail 98 start
-       else insert_token (sk_token_number sk - sc_tokens_parsed s) (span_empty (sk_mark sk), TFlowMappingStart)
+       else if starts_ifm then insert_token (sk_token_number sk - sc_tokens_parsed s) (span_empty (sk_mark sk), TFlowMappingStart)
+       else ret tt
      else ret tt) ;;;
     roll_indent (m_col (sk_mark sk)) (Some (sk_token_number sk)) TBlockMappingStart (sk_mark sk) ;;;
     roll_one_col_indent ;;;
@@ -161,7 +163,7 @@ Definition fetch_value : M unit :=
     disallow_simple_key ;;;
     push_tok (span_empty start, TValue)
   else
-    (if is_ifm then push_tok (span_empty start, TFlowMappingStart) else ret tt) ;;;
+    (if starts_ifm then push_tok (span_empty start, TFlowMappingStart) else ret tt) ;;;
     s <- get ;;
     (if sc_flow_level s =? 0 then
        if negb (sc_ska s) then fail 99 start
